@@ -28,4 +28,4 @@ def run(check):
     check.run_rule('C05.R6', lambda c: rule_star_extraction(c, 'C05.R6'))
     check.run_rule('C05.R7', lambda c: rule_resolution_order(c, 'C05.R7'))
     # a forwarding call that cannot be translated must abort discovery (plain signature), never be skipped
-    check.run_rule('C05.R8', lambda c: rule_translation(c, {'translate': None, 'fallback': 'C05.R8'}))
+    check.run_rule('C05.R8', lambda c: rule_translation(c, {'translate': 'C05.R8', 'fallback': 'C05.R8'}))
